@@ -25,7 +25,7 @@ def n_runs(tier):
 
 
 def generate(rng, tier, index):
-    wp = world.gen_world_plan(rng, big=(tier == "thorough"), max_images=4)
+    wp = world.gen_world_plan(rng, big=(tier == "thorough"), max_images=4, giant=0.008)
     n = rng.choice(wp["images"])["lines"]
     choices = common.rpc_choices(n)
     rng.shuffle(choices)
